@@ -76,6 +76,9 @@ def disc_is(v, k):
 
 
 def returned(res):
+    for r in res:
+        if r['status'].startswith('loop bound exceeded'):
+            raise Exception('unwinding assertion failed: ' + r['status'])     # a truncated path must never count as explored
     return [r for r in res if r['status'] == 'return']
 
 
@@ -150,6 +153,10 @@ class Ob:
                 self.samples.append({'obligation': self.oid, 'goal': label, 'verdict': 'unsat', 'solver_s': round(dt, 3),
                                      'smt2_head': s.to_smt2()[-600:]})
             return 'unsat'
+        if res == z3.sat and any(k.startswith('bitop_') for k in model_dict(s.model())):
+            self.unknown += 1
+            self.notes.append(f'UNDECIDED {label}: the model depends on an abstracted bit operation')
+            return 'unknown'
         if res == z3.sat:
             self.sat += 1
             self.sat_labels = getattr(self, 'sat_labels', {}); self.sat_labels[label] = self.sat_labels.get(label, 0) + 1
